@@ -434,6 +434,33 @@ def run_case(case):
             if exc is not None or probe.calls != [nm] or d[nm].seed() != 424242 + 7 * r:
                 out.fail("custom-fallback-not-used", {"stream": nm, "exc": exc, "calls": probe.calls,
                                                       "seed": d[nm].seed()})
+            # a chained fallback - another seed updater that does list the stream - serves it as long as it is the
+            # fallback; once the fallback is replaced, the stream is served by the new one, and an updater built on
+            # the same configuration never knew the chained list
+            if not (type(r) is int and 0 <= r <= 64):
+                continue
+            from pydsol.core.streams import StreamSeedUpdater
+            own = {k: list(v) for k, v in table.items()}
+            upd = StreamSeedUpdater(own)
+            chained = {nm: [9001 + 13 * i for i in range(r + 2)]}
+            upd.set_fallback_stream_updater(_seeded(chained))
+            d = _build([sp])
+            exc = _call(upd.update_seeds, d, r)
+            if exc is not None or d[nm].seed() != 9001 + 13 * r:
+                out.fail("chained-fallback-not-used", {"stream": nm, "r": r, "exc": exc, "seed": d[nm].seed()})
+            probe = _Fallback.make()
+            upd.set_fallback_stream_updater(probe)
+            d = _build([sp])
+            exc = _call(upd.update_seeds, d, r)
+            if exc is not None or probe.calls != [nm] or d[nm].seed() != 424242 + 7 * r:
+                out.fail("replaced-fallback-not-used", {"stream": nm, "exc": exc, "calls": probe.calls,
+                                                        "seed": d[nm].seed(), "r": r})
+            d = _build([sp])
+            exc = _call(StreamSeedUpdater(own).update_seeds, d, r)
+            if exc is not None or _obs(d[nm]) != alone:
+                out.fail("configuration-changed-by-chained-fallback", {"stream": nm, "r": r, "exc": exc,
+                                                                        "listed_now": sorted(own)[:6]})
+            out.label("chained-fallback")
     if listed and not beyond and seeded_ok:
         upd = _seeded(table)
         probe = _Fallback.make()
